@@ -625,7 +625,11 @@ pub fn replay_main(engine_for: &dyn Fn(&str) -> Option<Box<dyn Engine>>, path: &
     let ctx = Ctx { prop: prop.clone(), tier: Tier::Quick, seed: 0 };
     let mut rep = Report::new();
     start_watchdog();
-    engine.replay(&ctx, &v["case"], &mut rep);
+    let mut case = v["case"].clone();
+    if case.is_object() {
+        case["__engine"] = v["engine"].clone();
+    }
+    engine.replay(&ctx, &case, &mut rep);
     if rep.get("violations") > 0 {
         if !quiet {
             for x in &rep.violations {
@@ -639,5 +643,59 @@ pub fn replay_main(engine_for: &dyn Fn(&str) -> Option<Box<dyn Engine>>, path: &
             println!("replay of {}: property {} holds on this case", path, prop);
         }
         0
+    }
+}
+
+/// several engines serving one property: batches are concatenated, replay is routed by engine name
+pub struct Composite {
+    pub parts: Vec<Box<dyn Engine>>,
+}
+
+impl Engine for Composite {
+    fn name(&self) -> &'static str {
+        "composite"
+    }
+    fn meta(&self, ctx: &Ctx) -> Meta {
+        let ms: Vec<Meta> = self.parts.iter().map(|p| p.meta(ctx)).collect();
+        let mut assumptions: Vec<String> = vec![];
+        for m in &ms {
+            for a in &m.assumptions {
+                if !assumptions.contains(a) {
+                    assumptions.push(a.clone());
+                }
+            }
+        }
+        Meta {
+            level: ms[0].level,
+            rule: ms.iter().zip(self.parts.iter()).map(|(m, p)| format!("[{}] {}", p.name(), m.rule)).collect::<Vec<_>>().join(" || "),
+            assumptions,
+            exhaustive: ms.iter().all(|m| m.exhaustive),
+            space: ms.iter().zip(self.parts.iter()).map(|(m, p)| format!("[{}] {}", p.name(), m.space)).collect::<Vec<_>>().join(" || "),
+        }
+    }
+    fn num_batches(&self, ctx: &Ctx) -> usize {
+        self.parts.iter().map(|p| p.num_batches(ctx)).sum()
+    }
+    fn run_batch(&self, ctx: &Ctx, batch: usize, rep: &mut Report) {
+        let mut b = batch;
+        for p in &self.parts {
+            let n = p.num_batches(ctx);
+            if b < n {
+                return p.run_batch(ctx, b, rep);
+            }
+            b -= n;
+        }
+    }
+    fn replay(&self, ctx: &Ctx, case: &Value, rep: &mut Report) {
+        let name = case["__engine"].as_str().unwrap_or("");
+        for p in &self.parts {
+            if p.name() == name {
+                return p.replay(ctx, case, rep);
+            }
+        }
+        self.parts[0].replay(ctx, case, rep)
+    }
+    fn hang_is_violation(&self, prop: &str) -> bool {
+        self.parts.iter().any(|p| p.hang_is_violation(prop))
     }
 }
